@@ -119,7 +119,8 @@ Theorem calc_size_calc_value : forall n, 1 <= n <= 62 -> calc_size (calc_value n
 Proof. exact Proofs.calc_size_calc_value. Qed.
 Print Assumptions calc_size_calc_value.
 
-(* --- enum width: after every history of AddValue / RemoveValue / SetMinSize the reported size is
+(* --- enum width: after every history of AddValue / RemoveValue / RemoveAllValues / UpdateIndex /
+       SetMinSize the reported size is
        the smallest width >= the configured minimum able to represent the largest index *)
 Theorem enum_size_spec : forall ops m, Forall op_in_range ops ->
   is_max (e_values (enum_run ops)) m ->
